@@ -1085,6 +1085,10 @@ where
                 trace!("timer timed out; closing connection");
                 this.flags.insert(Flags::SHUTDOWN);
 
+                // the timer has done its job; left active it would complete again on every later
+                // poll and push the shutdown deadline below further and further away
+                this.ka_timer.clear(line!());
+
                 if let Some(deadline) = this.config.client_disconnect_deadline() {
                     // start shutdown timeout if enabled
                     this.shutdown_timer
